@@ -365,7 +365,7 @@ class _PmatrxNuclideIO:
         for xsNum in range(numActivationXS):
             with self._pmatrixIO.createRecord() as record:
                 pmatrixParams["activationXS"][xsNum] = record.rwList(
-                    activationXS[xsNum], self._numNeutronGroups
+                    activationXS[xsNum], "float", self._numNeutronGroups
                 )
                 pmatrixParams["activationMT"][xsNum] = record.rwInt(activationMT[xsNum])
                 pmatrixParams["activationMTU"][xsNum] = record.rwInt(
